@@ -18,7 +18,9 @@ class FuncInfo:
 
     @property
     def is_property(self):
-        return 'property' in self.decorators
+        # lazyproperty / cached_property read like a property (that they *remember* the value is the business of
+        # rules.c01.memoised_geometry and of FX, not of the evaluation of one access)
+        return any(d.split('.')[-1] in ('property', 'lazyproperty', 'cached_property') for d in self.decorators)
 
     @property
     def is_static(self):
